@@ -150,7 +150,7 @@ def api_rules(ctx, prog):
         ctx.ob("C02.S2d", f, "the parent's end is released exactly once - also when close() itself reports an error, after which the "
                "number may already belong to another handle's pipe whose data would be lost", not bad, {"events": bad[:4]}, nontrivial=True)
     ctx.floor("C02.S2", 4)
-    ctx.floor("C02.S3", 5)
+    ctx.floor("C02.S3", 3)
     # close: each stream value closes and invalidates its own field
     F = prog.fn("reproc_close")
     I = new_interp(prog)
@@ -353,6 +353,7 @@ def check(ctx):
     c11.closeall_rules(ctx, prog)
     # the convenience reader delivers every chunk it reads and reports each stream's end (C16.G1-G3)
     c16.drain_rules(ctx, prog)
+    ctx.floor("C02.S3", 5)
     # what is read is handed on from storage private to the call: no buffer shared between handles / threads (C20.H1)
     from . import c20
     c20.globals_rule(ctx, prog)
